@@ -6,7 +6,6 @@ From V Require Import Base.Int Base.IntLemmas Base.IO Base.Utf8 Gen.TextForms Mo
 From V Require Model.Date Model.Time.
 Import ListNotations.
 Open Scope Z_scope.
-Set Default Timeout 60.
 Ltac Zify.zify_post_hook ::= Z.to_euclidean_division_equations.
 
 Lemma low_digits_2 n : low_digits 2 n = [48 + (n / 10) mod 10; 48 + n mod 10].
